@@ -104,6 +104,8 @@ MhOK(t, mh, sibs) ==
                                 /\ \A i \in DOMAIN t.cs : InSeq(t.cs[i], mh.alpha)
       [] mh.k = "WeightedStr" -> /\ t.k = "val" /\ Len(t.cs) = mh.rows
                                  /\ \A i \in DOMAIN t.cs : InSeq(t.cs[i], mh.alpha)
+                                 \* a letter whose declared probability at a position is zero never stands there
+                                 /\ \A i \in DOMAIN t.cs : ~InSeq(t.cs[i], mh.forbid[i])
       [] mh.k = "Interval"   -> /\ t.k = "tuple" /\ Len(t.kids) = 2
                                 /\ LET a == t.kids[1].iv  b == t.kids[2].iv
                                    IN /\ 0 <= a /\ mh.minl <= b - a /\ b - a <= mh.maxl /\ b <= mh.top
